@@ -159,9 +159,12 @@ def run(ctx):
     # non-ignored category"): one line removed / added / changed, among lines that look like diff syntax
     nasty = ['--- a', '-- comment', '++i;', '+++ x', '@@ -1 +1 @@', 'diff --git a/x b/x', 'index 123..456 100644', '< old', '> new', '---', '+++',
              '<<<<<<< local', '=======', '>>>>>>> remote', '\\ No newline at end of file']
-    for t in range(30 if ctx.tier == 'quick' else 600):
+    # first a systematic sweep (every renderer x every marker x removed / added / changed), then random mixtures
+    plan = [(tool, mk, mode) for tool in ('git', 'diff', 'difflib') for mk in nasty for mode in ('remove', 'add', 'change')]
+    for t in range(len(plan) + (30 if ctx.tier == 'quick' else 600)):
         lines = ['%s = %d' % (rng.choice('abcdefgh'), rng.randrange(100)) if rng.random() < 0.6 else rng.choice(nasty) + ' %d' % i for i in range(rng.randrange(2, 7))]
-        captured = t % 3 == 2
+        planned = plan[t] if t < len(plan) else None
+        captured = planned is None and t % 3 == 2
         if captured:
             # the text is itself captured diff output (`!git diff` over files without trailing newline): the same marker lines repeat
             lines = []
@@ -173,6 +176,9 @@ def run(ctx):
             i = rng.randrange(len(lines))
         new = rng.choice(nasty) if rng.random() < 0.7 else 'value = %d' % rng.randrange(1000)
         mode = rng.choice(['remove', 'add', 'change'])
+        if planned is not None:
+            mode, new = planned[2], planned[1]
+            lines[i] = planned[1] + ' %d' % i
         if mode == 'remove':
             la, lb, removed, added = lines, lines[:i] + lines[i + 1:], [lines[i]], []
         elif mode == 'add':
@@ -199,9 +205,9 @@ def run(ctx):
         if r[0] != 'ok':
             continue
         d = to_diffentry_dicts(copy.deepcopy(r[1]))
-        tool = ['git', 'diff', 'difflib'][(t // 3) % 3]
+        tool = planned[0] if planned is not None else ['git', 'diff', 'difflib'][(t // 3) % 3]
         data = {'a': enc(a), 'b': enc(b), 'ignored': [], 'use_color': False, 'color_words': False, 'tool': tool}
-        ctx.count('changed-line:' + tool + (':captured-diff-text' if captured else ''))
+        ctx.count('changed-line:' + tool + (':captured-diff-text' if captured else '') + (':sweep' if planned is not None else ''))
         ctx.case('L' + canon(a) + canon(b) + tool, True)
         out = render(ctx, 'pretty_print_notebook_diff', lambda cfg: pp.pretty_print_notebook_diff('a.ipynb', 'b.ipynb', nbformat.from_dict(copy.deepcopy(a)), d, cfg),
                      make_cfg(0, False, False, tool), data)
